@@ -54,3 +54,41 @@ def replay_file(path):
         return 1
     print("case conforms on the current tree")
     return 0
+
+
+# ---------------------------------------------------------------- environment-backed members of choices (C18, C06)
+def bad_for(it, val):
+    if val in ("UNSET", None):
+        return False
+    if it["vt"] == "int" and val not in ("0", "1", "2", "3", "4", "5"):
+        return True
+    if it["vt"] == "str" and "%FF" in val:
+        return True
+    return bool(it["guard"]) and val == "2"
+
+
+
+def alt_env_sig(m):
+    """F18: a member of one branch is absent from the line, its variable holds a value that fails conversion or
+    the guard, and the run succeeds *through another branch* (the value returned is that branch's) instead of failing"""
+    s = signature(m)
+    env = m.get("env") or {}
+    d = m.get("def_full") or {}
+    typed = {x.get("s") for x in m.get("line", [])}
+    if isinstance(d, dict) and s["expect"] == "stderr" and s["got"] == "ok" and s.get("why") in ("conv", "guard"):
+        for k, f in enumerate(d["named"]):
+            if f["kind"] != "alt":
+                continue
+            badb = {b for b, br in enumerate(f["branches"]) for it in br["fields"]
+                    if it["kind"] == "arg" and it["env"] and bad_for(it, env.get(it["env"])) and not (typed & set(it["shorts"] + it["longs"]))}
+            try:
+                val = m["got"]["value"]["t"][k]
+            except Exception:
+                continue
+            vals = val if isinstance(val, list) else [val.get("some") if isinstance(val, dict) and "some" in val else val]
+            won = {x["v"] for x in vals if isinstance(x, dict) and "v" in x}
+            if badb and won and not (won & badb):
+                return {"rule": "invalid_env_value_masked_by_another_alternative"}
+    return s
+
+
